@@ -321,8 +321,33 @@ def _corner_tracks(rng):
     return tracks, res, margin
 
 
+def _dense_tracks(rng):
+    """A densely sampled log: 500+ vertices spaced a fraction of a cell apart, meandering (so that it wanders in and
+    out of cells between vertices that are several vertices apart), plus one or two ordinary features."""
+    res = rng.choice(RES_SQUARE + RES_NONSQUARE)
+    cell = min(res)
+    npts = rng.choice([501, 640, 900, 1500])
+    h = rng.choice([0.1, 0.2, 0.3, 0.45]) * cell
+    om = rng.uniform(0.2, 0.9)
+    x, y, th = 0.0, 0.0, rng.uniform(0, 2 * math.pi)
+    pts = []
+    for i in range(npts):
+        pts.append([x, y])
+        th += rng.uniform(-0.2, 0.2) + 0.7 * math.sin(i * om)
+        x += h * math.cos(th)
+        y += h * math.sin(th)
+    mx, my = min(p[0] for p in pts), min(p[1] for p in pts)
+    pts = [[p[0] - mx, p[1] - my] for p in pts]
+    W, H = max(p[0] for p in pts), max(p[1] for p in pts)
+    tracks = [pts] + [_walk(rng, "random", W, H, rng.randint(2, 5)) for _ in range(rng.randint(0, 2))]
+    return tracks, res, rng.choice(MARGINS)
+
+
 def _gen_rand_case(rng, force=None):
     force = force or {}
+    if force.get("dense"):
+        tracks, res, margin = _dense_tracks(rng)
+        force = {"res": res, "margin": margin, "tracks": tracks, "profile": "dense", "kind": force.get("kind")}
     if force.get("border"):
         tracks, res = _border_tracks(rng)
         force = {"res": res, "margin": 0, "tracks": tracks, "profile": "border"}
@@ -454,8 +479,11 @@ def _gen_rand_case(rng, force=None):
             d = rng.choice([0, 0.3 * cell, 0.3 * cell, cell, max(P["dX"], P["dY"]), 2 * cell, 1, 2.2, 5, gsize,
                             rng.uniform(0, 3 * max(P["dX"], P["dY"])), rng.uniform(0, gsize)])
             queries.append({"q": "nbh", "p": p, "d": d})
+    if profile == "dense":
+        for _ in range(30):
+            queries.append({"q": "pt", "p": list(rng.choice(tracks[0]))})
     # neighbourhood queries aimed at one leg: a point a fraction of a cell beside it, radius just above the offset
-    aimed = profile in ("border", "corner")
+    aimed = profile in ("border", "corner", "dense")
     for _ in range((4 if heavy else 12) if aimed else (2 if heavy else 5)):
         t = rng.choice(tracks)
         k = rng.randrange(len(t) - 1)
@@ -509,6 +537,9 @@ def cases(chunk):
             force["kind"] = ["tc", "net"][(k + n // 5) % 2]
         if n % 12 == 5:
             yield _gen_rand_case(rng, {"border": True})
+            continue
+        if n % 30 == 7:
+            yield _gen_rand_case(rng, {"dense": True, "kind": ["tc", "net"][(k + n // 30) % 2]})
             continue
         if n % 12 in (1, 9):
             yield _gen_rand_case(rng, {"corner": True})
@@ -606,6 +637,9 @@ def _build(case):
         # asked for) when only some of its edges are there, the remaining edges are added, and the index is built
         # again -- the final index must cover every edge of the network as it is then
         hr = random.Random(repr(case["tracks"]))
+        id_style = random.Random(repr(case["tracks"][0][:2])).choice([0, 0, 1, 1, 2])
+        if id_style:
+            M.CTX.count("edge_identifiers:" + ["", "int_1_to_N", "digit_strings"][id_style])
         stage = hr.randrange(1, len(trs)) if len(trs) >= 2 and hr.random() < 0.45 else None
         how = hr.choice(["index", "index", "bbox", "incremental", "incremental"])
         if stage is not None and how == "incremental":
@@ -638,7 +672,9 @@ def _build(case):
                 else:
                     M.call(net.bbox)
                 M.CTX.count("network_staged_build:" + how)
-            e = Edge("e%d" % k, t)
+            # identifiers: strings by default; for some networks the edges are numbered 1..N with Python ints, or with
+            # the strings "1".."N" (as read from a file whose identifiers are numbers)
+            e = Edge((k + 1) if id_style == 1 else str(k + 1) if id_style == 2 else "e%d" % k, t)
             net.addEdge(e, Node("s%d" % k, t.getObs(0).position.copy()),
                         Node("t%d" % k, t.getObs(t.size() - 1).position.copy()))
         if not (stage is not None and how == "incremental"):
@@ -914,7 +950,9 @@ def classify(case, witness):
 
 # floors for the call-history workloads added in session 3 (a run in which they were silently skipped is inconclusive)
 _floors_base = floors
-_FLOORS_EXTRA = {'counters': {'network_staged_build:index': 50, 'network_staged_build:bbox': 20,
+_FLOORS_EXTRA = {'classes': {'profile_dense': 20},
+                 'counters': {'edge_identifiers:int_1_to_N': 100, 'edge_identifiers:digit_strings': 50,
+                              'network_staged_build:index': 50, 'network_staged_build:bbox': 20,
                               'network_staged_build:incremental': 30}}
 
 
